@@ -5,7 +5,9 @@
 //   progs    "u:2:3,f:2;s:2:3"           one program per worker thread 1..n;  ops  u:a:b  s:a:b  f:a
 //   schedule "0,0,1,2,2,1"               explicit thread per step; the rest is drained round-robin
 //            "R<seed>:<steps>:<sw>"      seeded random: keep the running thread, switch with probability sw/1000
-//            "D<bound>"                  bounded DFS by re-execution: every schedule with <= bound preemptions
+//            "D<bound>:<max>"            bounded DFS by re-execution: every schedule with <= bound preemptions (at most
+//                                        <max> executions); one execution is printed per distinct history, then
+//                                        "D <job> <executions> <distinct histories>"
 //   v        print the arrays after every step (lines "S ...") - used for step-by-step comparison with the spec
 // stdout per execution:
 //   J <job index>
@@ -19,6 +21,9 @@
 #include "souffle/datastructure/UnionFind.h"
 #include <cstdio>
 #include <iostream>
+#include <map>
+#include <memory>
+#include <set>
 #include <sstream>
 #include <unistd.h>
 using namespace souffle;
@@ -60,6 +65,8 @@ struct Decision {
 // (run the current thread; at step dec[i].step switch to dec[i].thread; when the current thread finishes take the lowest
 // alive).  Returns the executed schedule and, per step, the set of alive workers before the step (for DFS branching).
 struct Exec {
+    std::string out;      // the text of this execution (J .. E)
+    std::string history;  // the V lines only (key for de-duplication inside a DFS job)
     std::vector<int> executed;
     std::vector<unsigned> aliveBefore;  // bitmask of threads not done, before step k
     std::vector<int> current;           // thread that ran at step k
@@ -73,8 +80,16 @@ static std::string arr(const std::vector<long>& v) {
 static Exec execute(long jobIdx, const Job& job, const std::vector<int>* sched, const unsigned long long* rndSeed, int rndSteps,
         int rndSwitch, const std::vector<Decision>* dec) {
     const int N = job.N, n = (int)job.progs.size();  // threads 0..n-1 (0 = setup)
-    DisjointSet ds;
-    for (int i = 0; i < N; i++) ds.makeNode();
+    // one DisjointSet per size, created once with makeNode() and put back into the freshly-made state for every execution
+    // (constructing a PiggyList zeroes a 512 KB block: 70 us per execution)
+    static std::map<int, std::unique_ptr<DisjointSet>> objects;
+    auto& slot = objects[N];
+    if (!slot) {
+        slot.reset(new DisjointSet());
+        for (int i = 0; i < N; i++) slot->makeNode();
+    }
+    DisjointSet& ds = *slot;
+    for (int i = 0; i < N; i++) ds.a_blocks.get(i).store(DisjointSet::pr2b(i, 0));
     CoopUF coop(n);
     g = &coop;
     std::vector<std::string> res(n, "none");
@@ -120,18 +135,19 @@ static Exec execute(long jobIdx, const Job& job, const std::vector<int>* sched, 
             lastRk = rk;
         }
     };
-    std::printf("J %ld\n", jobIdx);
+    Exec ex;
+    std::string& out = ex.out;
+    out += "J " + std::to_string(jobIdx) + "\n";
     auto dump = [&](int t, long k) {
         if (!job.verbose) return;
-        std::printf("S %ld %d %s %s ", k, t, arr(par).c_str(), arr(rk).c_str());
-        for (int i = 0; i < n; i++) std::printf("%s%s", i ? "," : "", coop.lastPt[i].c_str());
-        std::printf(" ");
-        for (int i = 0; i < n; i++) std::printf("%s%d", i ? "," : "", ip[i]);
-        std::printf(" ");
-        for (int i = 0; i < n; i++) std::printf("%s%s", i ? "," : "", res[i].c_str());
-        std::printf("\n");
+        out += "S " + std::to_string(k) + " " + std::to_string(t) + " " + arr(par) + " " + arr(rk) + " ";
+        for (int i = 0; i < n; i++) out += (i ? "," : "") + coop.lastPt[i];
+        out += " ";
+        for (int i = 0; i < n; i++) out += (i ? "," : "") + std::to_string(ip[i]);
+        out += " ";
+        for (int i = 0; i < n; i++) out += (i ? "," : "") + res[i];
+        out += "\n";
     };
-    Exec ex;
     for (int t = 0; t < n; t++) coop.step(t);  // bring every thread to its first operation boundary
     observe();
     dump(-1, 0);
@@ -169,15 +185,15 @@ static Exec execute(long jobIdx, const Job& job, const std::vector<int>* sched, 
     if (sched != nullptr) {
         for (int t : *sched) {
             if (t < 0 || t >= n) {
-                std::printf("ERR no thread %d at step %ld\n", t, k + 1);
+                out += "ERR no thread " + std::to_string(t) + " at step " + std::to_string(k + 1) + "\n";
                 break;
             }
             if (t > 0 && !setupDone()) {
-                std::printf("ERR thread %d scheduled before the set-up finished at step %ld\n", t, k + 1);
+                out += "ERR thread " + std::to_string(t) + " scheduled before the set-up finished at step " + std::to_string(k + 1) + "\n";
                 break;
             }
             if (!doStep(t)) {
-                std::printf("ERR thread %d already finished at step %ld\n", t, k + 1);
+                out += "ERR thread " + std::to_string(t) + " already finished at step " + std::to_string(k + 1) + "\n";
                 break;
             }
         }
@@ -234,25 +250,27 @@ static Exec execute(long jobIdx, const Job& job, const std::vector<int>* sched, 
     }
     if (!ex.livelock) drain();
     if (ex.livelock) {
-        for (auto& e : events) std::printf("V %s\n", e.c_str());
-        std::printf("LIVELOCK\nX %s\nE\n", "-");
+        for (auto& e : events) ex.history += "V " + e + "\n";
+        out += ex.history + "LIVELOCK\nX -\nE\n";
         g = nullptr;
         return ex;  // the unfinished contexts are abandoned
     }
     observe();
     events.push_back("final " + arr(par));
-    for (auto& e : events) std::printf("V %s\n", e.c_str());
+    for (auto& e : events) ex.history += "V " + e + "\n";
     std::string xs;
     for (std::size_t i = 0; i < ex.executed.size(); i++) xs += (i ? "," : "") + std::to_string(ex.executed[i]);
-    std::printf("X %s\nE\n", xs.empty() ? "-" : xs.c_str());
+    out += ex.history + "X " + (xs.empty() ? std::string("-") : xs) + "\nE\n";
     g = nullptr;
     return ex;
 }
 // bounded DFS by re-execution: decisions = (worker step index, thread); cost 1 if the running thread was still alive
-static long dfs(long jobIdx, const Job& job, std::vector<Decision>& dec, int budget, long maxExec, long& count) {
+static long dfs(long jobIdx, const Job& job, std::vector<Decision>& dec, int budget, long maxExec, long& count,
+        std::set<std::string>& seen) {
     if (count >= maxExec) return count;
     count++;
     Exec ex = execute(jobIdx, job, nullptr, nullptr, 0, 0, &dec);
+    if (seen.insert(ex.history).second) std::fputs(ex.out.c_str(), stdout);  // one representative schedule per distinct history
     // worker steps start after the set-up; aliveBefore/current are indexed consistently for worker steps only
     long first = dec.empty() ? 0 : dec.back().step + 1;
     // ex.current has one entry per worker step; in aliveBefore the steps of the set-up thread come first
@@ -268,7 +286,7 @@ static long dfs(long jobIdx, const Job& job, std::vector<Decision>& dec, int bud
             int cost = prevAlive ? 1 : 0;  // leaving a thread that could continue = preemption
             if (cost > budget) continue;
             dec.push_back({wk, t});
-            dfs(jobIdx, job, dec, budget - cost, maxExec, count);
+            dfs(jobIdx, job, dec, budget - cost, maxExec, count, seen);
             dec.pop_back();
             if (count >= maxExec) return count;
         }
@@ -297,18 +315,20 @@ int main() {
             auto p = split(s.substr(1), ':');
             unsigned long long seed = std::stoull(p[0]);
             int steps = p.size() > 1 ? std::stoi(p[1]) : 40, sw = p.size() > 2 ? std::stoi(p[2]) : 1000;
-            execute(jobIdx, job, nullptr, &seed, steps, sw, nullptr);
+            std::fputs(execute(jobIdx, job, nullptr, &seed, steps, sw, nullptr).out.c_str(), stdout);
         } else if (s[0] == 'D') {
             auto p = split(s.substr(1), ':');
             int bound = std::stoi(p[0]);
             long maxExec = p.size() > 1 ? std::stol(p[1]) : 2000, count = 0;
             std::vector<Decision> dec;
-            dfs(jobIdx, job, dec, bound, maxExec, count);
+            std::set<std::string> seen;
+            dfs(jobIdx, job, dec, bound, maxExec, count, seen);
+            std::printf("D %ld %ld %zu\n", jobIdx, count, seen.size());  // executions explored, distinct histories
         } else {
             std::vector<int> sched;
             for (auto& x : split(s, ','))
                 if (!x.empty() && x != "-") sched.push_back(std::stoi(x));
-            execute(jobIdx, job, &sched, nullptr, 0, 0, nullptr);
+            std::fputs(execute(jobIdx, job, &sched, nullptr, 0, 0, nullptr).out.c_str(), stdout);
         }
         jobIdx++;
         std::fflush(stdout);
